@@ -33,6 +33,7 @@ class Ctx:
                         tlc_runs=[], replay=[], traces=[], known_findings=[],
                         impl_conformance=True, exhaustive=False)
         self.assumptions = []
+        self.deferred_infra = []   # infrastructure failures of single phases: never a verdict, reported at the end (exit 2) unless a later phase observed a violation
         self.violations = []   # (what, replay path)
         self.known = load_known().get(pid, [])
         self.known_hit = set()
@@ -188,8 +189,13 @@ class Ctx:
             json.dump(ev, f, indent=1, default=str)
         shutil.rmtree(self.scratch, ignore_errors=True)
         if self.violations:
+            for msg in self.deferred_infra:
+                log('NOTE (infrastructure, no verdict from that phase): ' + str(msg)[:400])
             log('RESULT %s %s: %d violation(s)' % (self.pid, self.tier, len(self.violations)))
             return 1
+        if self.deferred_infra:
+            log('INFRA-FAILURE %s: %s' % (self.pid, str(self.deferred_infra[0])[:3000]))
+            return 2
         log('RESULT %s %s: held (states=%d transitions=%d traces=%d evaluations=%d, %.1fs)' % (
             self.pid, self.tier, cov['states'], cov['transitions'], cov['traces_validated_against_impl'],
             cov['evaluations'], time.time() - self.t0))
@@ -352,7 +358,10 @@ def run_sharded(ctx, argv_for_shard, shard_paths, timeout=3000):
                 merged[k] = merged.get(k, 0) + r[k]
     if infra_errs:
         if not any(not k.startswith('infra') for k in merged['failures_by_key']):
-            raise Infra(infra_errs[0])
+            if len(infra_errs) == len(procs):
+                raise Infra(infra_errs[0])
+            ctx.deferred_infra.append(infra_errs[0])
+            return merged
         log('NOTE: %d shard(s) died for reasons of their own (%s ...); the other shards observed failures of the real code, which are reported' % (len(infra_errs), infra_errs[0][:300]))
         ctx.assumptions.append('%d harness shard(s) died (infrastructure); the failures reported come from the remaining shards' % len(infra_errs))
     return merged
@@ -372,7 +381,9 @@ def report_case_failures(ctx, merged, what):
     if infra:
         # an infrastructure failure is never a verdict -- and never hides one: with real failures reported it is a note
         if not real:
-            raise Infra(infra[0])
+            # this phase gave no verdict; the remaining phases still run (they may observe the real code misbehaving)
+            ctx.deferred_infra.append(infra[0])
+            return
         log('NOTE: ' + infra[0][:600])
         ctx.assumptions.append('some cases could not be run (infrastructure): ' + infra[0][:300])
 
